@@ -138,7 +138,26 @@ func execRead(t xml.TokenReader, how string) {
 // execWrites writes the program's elements token by token. explicitNS selects whether
 // elements of the stream's own namespace name it explicitly or leave the space empty
 // (both occur in real handlers).
-func execWrites(t xmlstream.TokenWriter, ws []rW, ns string, explicitNS bool) error {
+// elemVal is a Go value whose XML encoding is one of the program's elements: the handler can
+// hand it to Encode / EncodeElement instead of writing its tokens one by one.
+type elemVal struct {
+	start xml.StartElement
+	inner []xml.Token
+}
+
+func (v elemVal) MarshalXML(e *xml.Encoder, _ xml.StartElement) error {
+	if err := e.EncodeToken(v.start); err != nil {
+		return err
+	}
+	for _, t := range v.inner {
+		if err := e.EncodeToken(t); err != nil {
+			return err
+		}
+	}
+	return e.EncodeToken(v.start.End())
+}
+
+func execWrites(t xmlstream.TokenWriter, ws []rW, ns string, explicitNS bool, via string) error {
 	for _, w := range ws {
 		name := xml.Name{Local: w.El}
 		switch {
@@ -156,6 +175,26 @@ func execWrites(t xmlstream.TokenWriter, ws []rW, ns string, explicitNS bool) er
 		}
 		if a := addrOf(w.To); a != "" {
 			start.Attr = append(start.Attr, xml.Attr{Name: xml.Name{Local: "to"}, Value: a})
+		}
+		if enc, ok := t.(xmlstream.Encoder); ok && via != "token" && via != "" {
+			// the same element, handed over as a value (Encode) or as a value plus start element
+			val := elemVal{start: start}
+			if w.Nest {
+				in := xml.StartElement{Name: xml.Name{Space: name.Space, Local: "iq"}, Attr: []xml.Attr{
+					{Name: xml.Name{Local: "id"}, Value: w.ID}, {Name: xml.Name{Local: "type"}, Value: "result"}}}
+				val.inner = []xml.Token{in, in.End()}
+			}
+			var err error
+			if via == "encode" {
+				err = enc.Encode(val)
+			} else {
+				val.start = xml.StartElement{Name: xml.Name{Space: "urn:vt:own", Local: "ownstart"}}
+				err = enc.EncodeElement(val, start)
+			}
+			if err != nil {
+				return err
+			}
+			continue
 		}
 		if err := t.EncodeToken(start); err != nil {
 			return err
@@ -180,6 +219,7 @@ func execWrites(t xmlstream.TokenWriter, ws []rW, ns string, explicitNS bool) er
 type run7 struct {
 	v       rVec
 	ns      string
+	via     string // how the handler writes: "token" (EncodeToken), "encode", "encodeel"
 	invoked []string
 }
 
@@ -187,12 +227,12 @@ func (r *run7) program(t xmlstream.TokenReadEncoder, sentinel bool) error {
 	if sentinel {
 		r.invoked = append(r.invoked, "sentinel")
 		execRead(t, "all")
-		return execWrites(t, r.v.Sentinel, r.ns, false)
+		return execWrites(t, r.v.Sentinel, r.ns, false, "token")
 	}
 	r.invoked = append(r.invoked, "test")
 	execRead(t, r.v.P.Read)
 	explicit := r.v.P.Read == "one" || r.v.P.Read == "over"
-	if err := execWrites(t, r.v.Writes, r.ns, explicit); err != nil {
+	if err := execWrites(t, r.v.Writes, r.ns, explicit, r.via); err != nil {
 		return fmt.Errorf("driver: write failed: %w", err)
 	}
 	if r.v.P.Ret == "err" {
@@ -343,69 +383,82 @@ func replyMain(args []string) {
 			if err := json.Unmarshal(line, &v); err != nil {
 				die("vector: %v: %s", err, line)
 			}
-			evals++
 			ns := stanzaNSOf(v.NS)
-			r := &run7{v: v, ns: ns}
-			input := render7(v.E, ns) + sentinelXML + "</stream:stream>"
-			var h xmpp.Handler
-			regPanic := ""
-			func() {
-				defer func() {
-					if x := recover(); x != nil {
-						regPanic = fmt.Sprint(x)
-					}
+			vias := []string{"token"}
+			foreign := false
+			for _, w := range v.Writes {
+				foreign = foreign || w.NS == "foreign"
+			}
+			// a handler may also hand its reply over as a value (Encode / EncodeElement): same
+			// expectation. (Elements in a foreign namespace named like a stanza are excluded on that
+			// path: the session re-qualifies them - open known finding of C05.)
+			if len(v.Writes) > 0 && !foreign {
+				vias = append(vias, "encode", "encodeel")
+			}
+			for _, via := range vias {
+				evals++
+				r := &run7{v: v, ns: ns, via: via}
+				input := render7(v.E, ns) + sentinelXML + "</stream:stream>"
+				var h xmpp.Handler
+				regPanic := ""
+				func() {
+					defer func() {
+						if x := recover(); x != nil {
+							regPanic = fmt.Sprint(x)
+						}
+					}()
+					h = r.handler()
 				}()
-				h = r.handler()
-			}()
-			if regPanic != "" {
-				die("driver: handler construction panicked: %s (%s)", regPanic, line)
-			}
-			res := serveInput(ns, input, h)
-			if res.Stalled {
-				stalls++
-				out.put(map[string]interface{}{"kind": "stall", "vector": v, "input": input})
-				return
-			}
-			obs, closed, perr := parseOut(res.Wire, ns)
-			// "Terminated with a stream error" is observed as: Serve returned an error and
-			// handled nothing more. (On this tree the <stream:error/> element itself stays in
-			// the encoder's buffer and only the closing tag reaches the wire - the repository's
-			// own serve tests expect exactly that output - so its presence is counted, not required.)
-			obs, onWire := stripStreamErrors(obs)
-			serrOnWire += onWire
-			if res.Err != nil {
-				terminated++
-				obs = append(obs, topOut{Local: "error", NS: "stream"})
-			}
-			ok := res.Panic == "" && perr == nil
-			if ok {
-				ok = false
-				for _, alt := range v.Acc {
-					exp, err := expectOut(alt)
-					if err != nil {
-						die("vector acc: %v", err)
-					}
-					if outsMatch(exp, obs) {
-						ok = true
-						break
+				if regPanic != "" {
+					die("driver: handler construction panicked: %s (%s)", regPanic, line)
+				}
+				res := serveInput(ns, input, h)
+				if res.Stalled {
+					stalls++
+					out.put(map[string]interface{}{"kind": "stall", "vector": v, "via": via, "input": input})
+					continue
+				}
+				obs, closed, perr := parseOut(res.Wire, ns)
+				// "Terminated with a stream error" is observed as: Serve returned an error and
+				// handled nothing more. (On this tree the <stream:error/> element itself stays in
+				// the encoder's buffer and only the closing tag reaches the wire - the repository's
+				// own serve tests expect exactly that output - so its presence is counted, not required.)
+				obs, onWire := stripStreamErrors(obs)
+				serrOnWire += onWire
+				if res.Err != nil {
+					terminated++
+					obs = append(obs, topOut{Local: "error", NS: "stream"})
+				}
+				ok := res.Panic == "" && perr == nil
+				if ok {
+					ok = false
+					for _, alt := range v.Acc {
+						exp, err := expectOut(alt)
+						if err != nil {
+							die("vector acc: %v", err)
+						}
+						if outsMatch(exp, obs) {
+							ok = true
+							break
+						}
 					}
 				}
-			}
-			cls := fmt.Sprintf("%s/%s/%s/%d outs/err=%v", v.E.Kind, v.E.Type, v.Mode, len(obs), res.Err != nil)
-			classes[cls]++
-			if len(obs) > 0 {
-				nontrivial++
-			}
-			if !ok {
-				mism++
-				m := map[string]interface{}{"kind": "reply", "vector": v, "input": input, "wire": res.Wire, "observed": obs,
-					"closed": closed, "serve_error": errString(res.Err), "panic": res.Panic, "invoked": r.invoked, "unread": res.Unread}
-				if perr != nil {
-					m["unparsable"] = perr.Error()
+				cls := fmt.Sprintf("%s/%s/%s/%d outs/err=%v", v.E.Kind, v.E.Type, v.Mode, len(obs), res.Err != nil)
+				classes[cls]++
+				if len(obs) > 0 {
+					nontrivial++
 				}
-				out.put(m)
-			} else if len(samples) < 3 && len(obs) >= 2 && evals%89 == 0 {
-				samples = append(samples, map[string]interface{}{"vector": v, "input": input, "wire": res.Wire, "serve_error": errString(res.Err)})
+				if !ok {
+					mism++
+					m := map[string]interface{}{"kind": "reply", "vector": v, "via": via, "input": input, "wire": res.Wire, "observed": obs,
+						"closed": closed, "serve_error": errString(res.Err), "panic": res.Panic, "invoked": r.invoked, "unread": res.Unread}
+					if perr != nil {
+						m["unparsable"] = perr.Error()
+					}
+					out.put(m)
+				} else if len(samples) < 3 && len(obs) >= 2 && evals%89 == 0 {
+					samples = append(samples, map[string]interface{}{"vector": v, "input": input, "wire": res.Wire, "serve_error": errString(res.Err)})
+				}
 			}
 		})
 	}
